@@ -45,6 +45,8 @@ def random_run(rng):
         n = rng.choice([1, 3, 64, 1000, 65536, 0])        # 0 = None
         if n == 0 and mode == "stream" and framing != "chunked":
             n = 65536
+        if n < 64 and n != 0 and size > 3000:
+            n = 1000                                       # keep traces of big bodies to a few hundred events
         run["ops"] = [(mode, n)]
         run["drain"] = (mode, n)
     elif mode == "iter":
@@ -53,7 +55,7 @@ def random_run(rng):
     elif mode == "preload":
         run["preload"] = True
     else:                                                  # stream steps mixed with read calls (not chunked)
-        n = rng.choice([1, 3, 64, 1000])
+        n = rng.choice([1, 3, 64, 1000]) if size <= 3000 else 1000
         ops = []
         for _ in range(rng.randint(2, 7)):
             ops.append(("stream", n) if rng.random() < 0.5 else read_op())
@@ -83,7 +85,7 @@ def run(rep):
              ("liveness: every call sequence ends", dict(spec="LiveSpec", sc="ScC12Tiny", amts="A2", amts1="A2", into="A2",
                                                          gen="A2", maxops=30, after=0, body="PROPERTY Terminates"), None)]
     J = bc.JOBS
-    ekw = dict(sc=sc, maxops=3 if quick else 4, amts="A1237", amts1="A27", into="A3", gen="A27")
+    ekw = dict(sc=sc, maxops=3, amts="A1237", amts1="A27", into="A3", gen="A27")
     rng = random.Random(rep.seed * 7919 + 12)
     rruns = [random_run(rng) for _ in range(6000 if quick else 250000)]
     # probe: stream(amt=None) after a partial sized read on a decoded body (with D6 present this spins forever and is
